@@ -268,8 +268,19 @@ def short(s, n=120):
     return s if len(s) <= n else s[:n] + "...(%d chars)" % len(s)
 
 
-def analyse(ana, text, mode, chars=True):
-    return [Tok(t, True, chars) for t in ana(text, positions=True, chars=chars, mode=mode)]
+def analyse(ana, text, mode, chars=True, **kw):
+    return [Tok(t, True, chars) for t in ana(text, positions=True, chars=chars, mode=mode, **kw)]
+
+
+def source_ranges(ana, text, mode, qset, fallback):
+    """Source ranges of every occurrence of the matched terms as the highlighter sees the text: it re-analyses
+    with removestops=False, so an occurrence that was stopped at index time but carries a matched term's text
+    (e.g. a gram equal to a stop word) is still an occurrence of that term's text."""
+    try:
+        toks = analyse(ana, text, mode, removestops=False)
+    except Exception:  # noqa
+        toks = fallback
+    return sorted(set((t.sc, t.ec) for t in list(toks) + list(fallback) if t.text in qset and t.sc is not None))
 
 
 def one_case(ctx, rng, CAT, names):
@@ -430,7 +441,7 @@ def one_case(ctx, rng, CAT, names):
                 if has_offsets or True:
                     check_highlights(ctx, rng, s, wit, field, ana, text, itoks, distinct, did, kind, has_offsets)
                     if phrase_words and has_offsets and rng.random() < 0.5:
-                        check_strict_phrase(ctx, rng, s, wit, text, itoks, phrase_words, did)
+                        check_strict_phrase(ctx, rng, s, wit, ana, text, itoks, phrase_words, did)
             except Exception as e:  # noqa
                 mech, in_harness = exc_mech("search", e)
                 if in_harness:
@@ -548,7 +559,7 @@ def check_highlights(ctx, rng, s, wit, field, ana, text, itoks, distinct, did, k
     if has_offsets and rng.random() < 0.3:
         check_lowlevel_highlight(ctx, rng, wit, ana, text, qtoks)
     # source ranges of the matched terms, from the index-mode analysis of the whole text
-    ranges = sorted(set((t.sc, t.ec) for t in itoks if t.text in qset and t.sc is not None))
+    ranges = source_ranges(ana, text, "index", qset, itoks)
     for _ in range(2):
         frname, frf = rng.choice(fragmenters)
         foname, fof = rng.choice(formatters)
@@ -661,7 +672,7 @@ def check_lowlevel_highlight(ctx, rng, wit, ana, text, qtoks):
     except Exception:  # noqa  (the analyze monitor reports exceptions of index mode; query mode is (b)'s subject)
         return
     qset = set(qtoks)
-    ranges = sorted(set((t.sc, t.ec) for t in qmode if t.text in qset and t.sc is not None))
+    ranges = source_ranges(ana, text, "query", qset, qmode)
     frname, fr = rng.choice([("context", highlight.ContextFragmenter(surround=rng.choice([20, 3]))),
                              ("sentence", highlight.SentenceFragmenter()), ("whole", highlight.WholeFragmenter()),
                              ("pinpoint", highlight.PinpointFragmenter(surround=rng.choice([20, 3])))])
@@ -719,7 +730,7 @@ def span_ok(a, b, ranges):
     return reach >= b
 
 
-def check_strict_phrase(ctx, rng, s, wit, text, itoks, words, did):
+def check_strict_phrase(ctx, rng, s, wit, ana, text, itoks, words, did):
     """Hit.highlights(strict_phrase=True) for a phrase query made of the document's own consecutive tokens: what is
     marked must still be source text of the phrase's words."""
     from whoosh import highlight, query
@@ -751,7 +762,7 @@ def check_strict_phrase(ctx, rng, s, wit, text, itoks, words, did):
             ctx.fail("f.highlight", "excerpt-not-substring:strict-phrase", dict(hw, excerpt=short(piece, 200)))
             return
     qset = set(words)
-    ranges = sorted(set((t.sc, t.ec) for t in itoks if t.text in qset and t.sc is not None))
+    ranges = source_ranges(ana, text, "index", qset, itoks)
     nmarked = 0
     for fr in (captured[0] if captured else []):
         index = fr.startchar
